@@ -13,7 +13,7 @@ class SubjectGroupsIqProtocolEntity(GroupsIqProtocolEntity):
         self.setProps(subject)
 
     def setProps(self, subject):
-        self.subject = subject
+        self.subject = subject.encode("utf-8") if type(subject) is not bytes else subject
 
     def toProtocolTreeNode(self):
         node = super(SubjectGroupsIqProtocolEntity, self).toProtocolTreeNode()
